@@ -764,3 +764,49 @@ where
         marker: PhantomData,
     }
 }
+
+/// Verification hooks (cargo feature `verif_hooks`, off by default): expose the private
+/// path helpers so that a native test harness can drive them without a browser.
+#[cfg(feature = "verif_hooks")]
+#[doc(hidden)]
+pub mod verif_hooks {
+    use super::*;
+
+    /// see `get_locale_from_path`
+    pub fn get_locale_from_path<L: Locale>(path: &str, base_path: &str) -> Option<L> {
+        super::get_locale_from_path::<L>(path, base_path)
+    }
+
+    /// see `get_new_path`; `segments` is wrapped into the private `RouteSegments`
+    pub fn get_new_path<L: Locale>(
+        location: &Location,
+        base_path: &str,
+        new_locale: L,
+        locale: Option<L>,
+        segments: HashMap<L, Vec<Vec<PathSegment>>>,
+    ) -> String {
+        super::get_new_path(
+            location,
+            base_path,
+            new_locale,
+            locale,
+            RouteSegments(Arc::new(Mutex::new(segments))),
+        )
+    }
+
+    /// see `localize_path`; returns the rebuilt path
+    pub fn localize_path(
+        path: &str,
+        old_locale_segments: &[Vec<PathSegment>],
+        new_locale_segments: &[Vec<PathSegment>],
+    ) -> Option<String> {
+        let mut path_builder = PathBuilder::default();
+        super::localize_path(
+            path,
+            old_locale_segments,
+            new_locale_segments,
+            &mut path_builder,
+        )?;
+        Some(path_builder.build())
+    }
+}
